@@ -23,7 +23,7 @@ TraceReset ==
   /\ ss' = [x \in Sessions |-> "idle"] /\ closed' = [x \in Sessions |-> FALSE]
   /\ nh' = [x \in Sessions |-> "none"]
   /\ pull' = PullInit /\ clock' = 0 /\ nticks' = 0 /\ down' = FALSE /\ act' = [name |-> "init"]
-  /\ push' = [t \in PushTargets |-> "idle"] /\ patt' = 0
+  /\ push' = [t \in PushTargets |-> PIdle] /\ patt' = 0
   /\ idl' = [x \in Sessions |-> "new"] /\ nsweeps' = 0
   /\ failed' = FALSE
 
